@@ -24,7 +24,8 @@ def one(d):
     m = json.load(open(os.path.join(d, "meta.json")))
     if m.get("detected_by_quick_check_of"):
         prop = m["detected_by_quick_check_of"]
-    out = subprocess.run([os.path.join(ROOT, "tools", "try_mutant.sh"), os.path.join(d, "patch.diff"), prop], capture_output=True, text=True,
+    patch = os.path.join(d, "patch_ported.diff") if os.path.exists(os.path.join(d, "patch_ported.diff")) else os.path.join(d, "patch.diff")
+    out = subprocess.run([os.path.join(ROOT, "tools", "try_mutant.sh"), patch, prop], capture_output=True, text=True,
                          env=dict(os.environ, VERIF_ROOT=ROOT)).stdout
     if "patch does not apply" in out:
         return name, "patch-does-not-apply"
